@@ -28,17 +28,19 @@ public:
 	std::function<void()> interleave;
 	uint64_t interleaveAtCall = UINT64_MAX, dataCalls = 0;
 	bool interleaved = false, inInterleave = false;
+	bool interleaveBefore = false; // run the other task before the bytes are delivered into the caller's buffer instead of after
 	std::string interleaveError;
 
 	explicit SimReader(std::vector<uint8_t> bytes) : data(std::move(bytes)) {}
 
 	std::size_t ReadPartial(void* buffer, std::size_t size) noexcept override {
+		if (interleaveBefore) maybeInterleave();
 		uint64_t left = data.size() - pos;
 		std::size_t n = size < left ? size : static_cast<std::size_t>(left);
 		if (n) memcpy(buffer, data.data() + pos, n);
 		note('p', size, pos, pos + n);
 		pos += n;
-		maybeInterleave();
+		if (!interleaveBefore) maybeInterleave();
 		return n;
 	}
 	uint64_t Length() override { return data.size(); }
@@ -62,11 +64,12 @@ public:
 protected:
 	void ReadImplementation(void* buffer, std::size_t size) override {
 		if (++calls >= throwAtCall) throw std::runtime_error("SimReader: the source failed at read call " + std::to_string(calls));
+		if (interleaveBefore) maybeInterleave();
 		if (size > data.size() - pos) throw std::runtime_error("SimReader: read of " + std::to_string(size) + " bytes at " + std::to_string(pos) + " runs past the end of the source (" + std::to_string(data.size()) + ")");
 		if (size) memcpy(buffer, data.data() + pos, size);
 		note('r', size, pos, pos + size);
 		pos += size;
-		maybeInterleave();
+		if (!interleaveBefore) maybeInterleave();
 	}
 
 private:
